@@ -92,6 +92,17 @@ CHECKS = {
        "both front-ends' Timer::at / TimeoutRequest arguments are checked against delay + end-of-TX - lead for every RxDelay.",
   note=COMMON_NOTE + "The radio's own symbol timeout / preamble detection is outside (C17). Front-end timing arithmetic is checked on the implementation with a scripted timer, not proved.",
   tech="machine-checked proof in Coq (regional window functions vs RP002 rules, total over all inputs) + translator-regenerated region tables + MAC-history correspondence + RP002 oracle + front-end timer oracle", ref="6 C10"),
+ "C11": dict(
+  text="Coq theorems (Props/C11.v) for arbitrary cipher/MAC functions with 16-byte outputs: join_otaa emits exactly the 23-byte JoinRequest of the spec (identifiers, DevNonce = draw mod 2^16, "
+       "MIC under the root key) and remembers that DevNonce; a frame is acted on iff it is an authentic JoinAccept (size 17/33, MHDR, CMAC under the root key over the AES-encrypted body: "
+       "spec_ja_accepts), otherwise the whole MAC state is returned unchanged and the window end reports NoJoinAccept; an authentic accept yields a fresh session (counters 0 / none, nothing "
+       "pending) with keys = LoRaWAN 1.0.x derivation from (root key, JoinNonce, NetID, the DevNonce just sent), the assigned address, RxDelay applied, RX1 offset / RX2 data rate applied iff "
+       "valid in the region else previous values kept; CFList: type 0 on dynamic plans defines channels J..J+4 (0 removes, out-of-band ignored, others untouched, no panic, plan length invariant), "
+       "type 1 on fixed plans replaces the mask, every other combination ignored. Tied to the code by MAC histories over all 256 DLSettings x RxDelay 0..15 x CFList variants x regions after failed "
+       "attempts, forged frames, re-joins, compared step by step with state snapshots; an independent python derivation judges keys/address/counters/settings/channel plan and the first uplinks; "
+       "RX1 / RX2 / no arrival driven through async_device and nb_device.",
+  note=COMMON_NOTE + "Premise enc(dec b)=b only for C11_session_of_network_accept (a JoinAccept built by the spec network); JoinAccept replay across DevNonces is inherent to LoRaWAN 1.0.x and not judged.",
+  tech="machine-checked proof in Coq (join model vs L2 spec: request, acceptance iff authentic, derived session, CFList semantics) + MAC-history correspondence + independent python key-derivation/settings oracle + front-end join runs", ref="6 C11"),
  "C12": dict(
   text="Coq theorems (Props/C12.v): the session model refines the abstract ADR/ACK machine of Spec/AdrSpec.v: every data uplink is the byte-exact spec frame of a description carrying the "
        "session address, the requested message type, the current counter and (ADR, ADRACKReq, ACK) = the spec's bits (ADRACKReq iff ADR on, >= 64 uplinks since an accepted downlink "
